@@ -251,14 +251,28 @@ class Path:
     exc: bool = False      # path passed through an exception edge
     env: Dict[str, object] = field(default_factory=dict)   # local name -> known constant
     facts: List[Tuple[str, bool]] = field(default_factory=list)  # normalised atoms known on the path
+    active: List[Tuple[str, bool]] = field(default_factory=list)  # decisions not yet invalidated by a write
 
     def copy(self) -> "Path":
         return Path(list(self.events), list(self.decisions), self.end, self.ret, self.exc, dict(self.env),
-                    list(self.facts))
+                    list(self.facts), list(self.active))
 
     @property
     def kinds(self) -> List[str]:
         return [k for k, _ in self.events]
+
+    def decided(self, text: str) -> Optional[bool]:
+        """Truth value the path decided for the expression `text` (through any spelling of the tests), if any."""
+        res = None
+        for t, v in self.decisions:
+            try:
+                e = ast.parse(t, mode="eval").body
+            except SyntaxError:
+                continue
+            for a, pol in atoms(e, v):
+                if u(a) == text:
+                    res = pol
+        return res
 
 
 MAX_PATHS = 20000
@@ -400,7 +414,7 @@ class PathEnum:
             v = self._eval(test, p.env)
             if v is not None and v != pol:
                 continue
-            for (k, vv) in p.decisions:
+            for (k, vv) in p.active:
                 if k == key and vv != pol:
                     ok = False
                     break
@@ -412,6 +426,7 @@ class PathEnum:
             if ok:
                 q = p.copy()
                 q.decisions.append((key, pol))
+                q.active.append((key, pol))
                 q.facts.extend(new_facts)
                 # (A and B) false with A known true  =>  B false   (dually for `or`)
                 if isinstance(test, ast.BoolOp) and (isinstance(test.op, ast.And) and not pol
@@ -427,6 +442,7 @@ class PathEnum:
                     if len(rest) == 1:
                         q.facts.extend((u(e), pp) for e, pp in atoms(rest[0], not want))
                         q.decisions.append((u(rest[0]), not want))
+                        q.active.append((u(rest[0]), not want))
                 out.append(q)
         return out
 
@@ -457,20 +473,25 @@ class PathEnum:
         if not names and not has_call:
             return
         for p in paths:
-            keep = []
-            for (k, v) in p.decisions:
-                try:
-                    t = ast.parse(k, mode="eval").body
-                except SyntaxError:
-                    continue
-                tn = {n.id for n in ast.walk(t) if isinstance(n, ast.Name)}
-                td = {dotted(n) for n in ast.walk(t) if isinstance(n, (ast.Attribute, ast.Subscript))}
-                if tn & names or (td - {None}) & names:
-                    continue
-                if has_call and any(isinstance(n, (ast.Attribute, ast.Call)) for n in ast.walk(t)):
-                    continue
-                keep.append((k, v))
-            p.decisions = keep
+            p.active = self._filter(p.active, names, has_call)
+            p.facts = self._filter(p.facts, names, has_call)
+
+    @staticmethod
+    def _filter(items, names, has_call):
+        keep = []
+        for (k, v) in items:
+            try:
+                t = ast.parse(k, mode="eval").body
+            except SyntaxError:
+                continue
+            tn = {n.id for n in ast.walk(t) if isinstance(n, ast.Name)}
+            td = {dotted(n) for n in ast.walk(t) if isinstance(n, (ast.Attribute, ast.Subscript))}
+            if tn & names or (td - {None}) & names:
+                continue
+            if has_call and any(isinstance(n, (ast.Attribute, ast.Call)) for n in ast.walk(t)):
+                continue
+            keep.append((k, v))
+        return keep
 
     # blocks ------------------------------------------------------------
     def block(self, body: List[ast.stmt], paths: List[Path]) -> List[Path]:
@@ -539,7 +560,9 @@ class PathEnum:
                     p.end = "fall"
                     # after one iteration decisions on the loop test are stale
                     if isinstance(st, ast.While):
-                        p.decisions = [d for d in p.decisions if d[0] != u(st.test)]
+                        p.active = [d for d in p.active if d[0] != u(st.test)]
+                        tf = {(u(e), pp) for e, pp in atoms(st.test, True)}
+                        p.facts = [f for f in p.facts if f not in tf]
                     out.append(p)
                 else:
                     out.append(p)
